@@ -163,7 +163,7 @@ class BodyMixin:
                 return None
             try:
                 return json_mod.loads(b)
-            except ValueError:  # includes JSONDecodeError, UnicodeDecodeError
+            except (ValueError, RecursionError):  # ValueError includes JSONDecodeError, UnicodeDecodeError
                 self._raise(BodyParsingError('Invalid JSON'), RequestError)
         return None
 
